@@ -62,7 +62,9 @@ func typeCheck(p program) *checked {
 			fs = append(fs, f)
 		}
 		info := &types.Info{Uses: map[*ast.Ident]types.Object{}, Defs: map[*ast.Ident]types.Object{}, Selections: map[*ast.SelectorExpr]*types.Selection{}}
-		conf := types.Config{Importer: mapImporter(c.pkgs)}
+		// FakeImportC: cgo files (import "C") are checked without the cgo tool; go/types records no object
+		// for the C.xxx selectors and reports no error for them
+		conf := types.Config{Importer: mapImporter(c.pkgs), FakeImportC: true}
 		tp, err := conf.Check(pk.Path, c.fset, fs, info)
 		if err != nil {
 			c.err = fmt.Errorf("%s: %v", pk.Path, err)
@@ -124,6 +126,21 @@ var c09Programs = []program{
 			"package app\n\nimport (\n\t\"example.com\"\n\t\"example.com/app/util\"\n\t\"example.com/apputil\"\n)\n\nvar local = util.Opts + util.Help() + apputil.Extra + root.Top + root.TopF()\n\nfunc use(c util.Conf, k apputil.Kind) int {\n\tq := util.Conf{N: int(k)}\n\treturn q.N + c.N + local\n}\n",
 			"package app\n\nimport . \"example.com/app/util\"\n\nvar dotted = Opts + Help()\n\nfunc dot(c Conf) int { return c.N + Conf{N: 1}.N }\n",
 			"package app\n\nimport (\n\tu \"example.com/app/util\"\n\tx \"example.com/apputil\"\n)\n\nvar aliased = u.Opts + x.Extra\n\nfunc al(c u.Conf) x.Kind { return x.Kind(c.N) }\n",
+		}},
+	}},
+	// cgo files: the pseudo-import "C" in a declaration of its own, as the last, the first and a middle
+	// spec of a parenthesised group, after the group, and alone; the specs around it are ordinary imports
+	{Pkgs: []progPkg{
+		{Path: "root/a", Files: []string{"package a\n\nvar A = 1\n\ntype T struct{ F int }\n\nfunc Fn() int { return A }\n"}},
+		{Path: "root/b", Files: []string{"package b\n\nconst B = 2\n\ntype U struct{ G int }\n"}},
+		{Path: "root/sub/c", Files: []string{"package c\n\nvar V = 3\n\nfunc W() int { return V }\n"}},
+		{Path: "root/cgo", Files: []string{
+			"package cgo\n\n// #include <stdlib.h>\nimport \"C\"\n\nimport (\n\t\"root/a\"\n\tbb \"root/b\"\n\t\"root/sub/c\"\n)\n\nvar own C.int\n\nvar v0 = a.A + bb.B + c.V + a.Fn()\n\nfunc f0(t a.T, u bb.U) int { return t.F + u.G + c.W() }\n",
+			"package cgo\n\nimport (\n\t\"root/a\"\n\tbb \"root/b\"\n\t\"root/sub/c\"\n\n\t// #include <stdlib.h>\n\t\"C\"\n)\n\nvar last C.long\n\nvar v1 = a.A + bb.B + c.V\n\nfunc f1(t a.T, u bb.U) int { return t.F + u.G + c.W() }\n",
+			"package cgo\n\nimport (\n\t// #include <stdlib.h>\n\t\"C\"\n\t\"root/a\"\n\tbb \"root/b\"\n\t\"root/sub/c\"\n)\n\nvar first C.size_t\n\nvar v2 = a.A + bb.B + c.V\n\nfunc f2(t a.T, u bb.U) int { return t.F + u.G + c.W() + int(C.abs(-1)) }\n",
+			"package cgo\n\nimport (\n\t\"root/a\"\n\t// #include <math.h>\n\t\"C\"\n\tbb \"root/b\"\n\t_ \"root/sub/c\"\n)\n\nvar middle C.double\n\nvar v3 = a.A + bb.B\n\nfunc f3(a a.T) int { return a.F + bb.B }\n",
+			"package cgo\n\nimport \"root/a\"\n\n// #include <stdlib.h>\nimport \"C\"\n\nimport bb \"root/b\"\n\nvar between C.char\n\nvar v4 = a.A + bb.B\n",
+			"package cgo\n\n// #include <stdlib.h>\nimport \"C\"\n\nvar alone C.int\n\nvar v5 = len(\"x\")\n",
 		}},
 	}},
 }
@@ -211,7 +228,12 @@ func c09Check(in c09Input) (key, what string) {
 			return false
 		case *ast.SelectorExpr:
 			x, isIdent := n.X.(*ast.Ident)
-			_, isPkg := info.Uses[x].(*types.PkgName)
+			pn, isPkg := info.Uses[x].(*types.PkgName)
+			if isIdent && isPkg && pn.Imported().Path() == "C" {
+				// a selector through the cgo pseudo-package: go/types has no object for it (no
+				// expectation can be computed); the identifiers around it are judged as usual
+				return false
+			}
 			dn := dec.Dst.Nodes[n]
 			if isIdent && isPkg {
 				want := expectedPath(info, self, n.Sel)
@@ -413,11 +435,41 @@ func c09Prop(c *Ctx) {
 			c.Res.hist("c09-use-shapes", k)
 		}
 	}
+	// cgo variants of generated files: "C" in a declaration of its own, first / in the middle / last in the
+	// parenthesised group, alone; every identifier is judged as in the file without it
+	for gi := 0; gi < c.N(24); gi++ {
+		g := genProgram(c.Rng)
+		li := len(g.Prog.Pkgs) - 1
+		last := g.Prog.Pkgs[li]
+		fi := c.Rng.Intn(len(last.Files))
+		src, layout := cgoVariant(last.Files[fi], cgoLayouts[gi%len(cgoLayouts)], gi)
+		if layout == "" {
+			continue
+		}
+		pp := program{Pkgs: append([]progPkg{}, g.Prog.Pkgs...)}
+		npk := progPkg{Path: last.Path, ImportAs: last.ImportAs, Files: append([]string{}, last.Files...)}
+		npk.Files[fi] = src
+		pp.Pkgs[li] = npk
+		c.Res.hist("c09-cgo-layout", layout)
+		for _, m := range []string{"gotypes", "goast"} {
+			in := c09Input{Program: &pp, File: fi, Mode: m}
+			c.Res.Evaluations++
+			c.Res.seen(src + m)
+			c.Res.hist("c09", m+"-generated-cgo")
+			if key, what := c09Check(in); key != "" {
+				c.Res.fail(key, what, in)
+			}
+		}
+	}
 	refuse := []string{
 		"package main\n\nimport . \"root/a\"\n\nvar x = X\n",
 		"package main\n\nimport (\n\t\"root/a\"\n\t\"root/b/a\"\n)\n\nvar x = a.X\n",
 		"package main\n\nimport (\n\t\"root/c\"\n\tc \"root/a\"\n)\n\nvar x = c.X\n",
 		"package main\n\nimport (\n\t\"root/a\"\n\t. \"root/c\"\n)\n\nvar x = a.X\n",
+		// the undecidable spec follows the cgo pseudo-import in the same group
+		"package main\n\nimport (\n\t// #include <stdlib.h>\n\t\"C\"\n\t. \"root/a\"\n)\n\nvar x = X\n",
+		"package main\n\nimport (\n\t\"root/a\"\n\t\"C\"\n\t\"root/b/a\"\n)\n\nvar x = a.X\n",
+		"package main\n\nimport \"C\"\n\nimport (\n\t\"root/c\"\n\tc \"root/a\"\n)\n\nvar x = c.X\n",
 	}
 	for _, src := range refuse {
 		in := c09Input{Mode: "goast-refuse", Src: src}
